@@ -28,7 +28,8 @@ def case_post_ops(case, pre=""):
     ops = []
     for f in case["files"]:
         for w in f.get("wxs", []):
-            if w.get("late"):
+            if w.get("late") or w.get("reset"):
+                # late: a module the source does not hold; reset: the content of a module of the source, set again as it is
                 ops.append(["set_inline", pre + f["path"], w["n"], concretise.wxs_source(w["members"], concretise.FN_TABLE)])
     return ops
 
